@@ -371,6 +371,11 @@ func c05Exec(c *Sexp) Outcome {
 	rec := newRecorder(400000)
 	g := buildGrammar(findArg(c, "env"), findArg(c, "root")[0], rec, false, arithInterp, nil)
 	real, val, err, pan := evalCase(c, g.root)
+	if be, ok := pan.(budgetExceeded); ok {
+		// the harness's own work budget (long expressions of the thorough tier): skipped, never counted as a pass —
+		// an earlier version reported it as "Evaluate panicked": a false alarm of the check, corrected
+		return Outcome{Skip: be.why}
+	}
 	files, _ := caseFiles(c)
 	norm := bytes.ReplaceAll(files[0].raw, []byte("\r\n"), []byte("\n"))
 	// reference: recursive descent over the text
